@@ -26,6 +26,8 @@ const NAMES: &[&str] = &[
     "some1", "none-left", "some-1", "none2", "some_", "none_",
     // letters and digits beyond ASCII continue an identifier
     "größe", "名前", "x²", "v٣", "ROOT１", "été_2",
+    // long names
+    "enclosing_function_scope", "a-rather-long-identifier-name-of-more-than-thirty-two-bytes",
 ];
 
 const STRS: &[&str] = &[
@@ -477,6 +479,12 @@ fn cmp_file(g: &GFile, f: &tsg::File) -> R {
     fi.sort();
     if gi != fi {
         return Err(format!("inherit declarations {:?} parsed as {:?}", gi, fi));
+    }
+    // ... and each written name is found when looked up by its text
+    for name in &gi {
+        if !f.inherited_variables.contains(name.as_str()) {
+            return Err(format!("inherit declaration {:?} is listed but not found when looked up by name", name));
+        }
     }
     let gs = g.shorthands();
     if gs.len() != f.shorthands.iter().count() {
